@@ -39,7 +39,7 @@ type Step struct {
 type Fault struct {
 	API  string `json:"api"` // findcoordinator join sync heartbeat commit offsetfetch leave fetch
 	Nth  int    `json:"nth"`
-	Kind string `json:"kind"` // code drop lost-ack slow (slow: answered correctly after Code milliseconds)
+	Kind string `json:"kind"` // code drop lost-ack slow (slow: answered correctly after Code milliseconds) code-not-first (commit: every partition entry of a topic but the first is refused)
 	Code int16  `json:"code,omitempty"`
 }
 
@@ -58,6 +58,8 @@ type Case struct {
 	Steps            []Step  `json:"steps"`
 	Faults           []Fault `json:"faults"`
 	Quiesce          bool    `json:"quiesce"` // after the steps: stop faults, drain with the surviving members
+	// NarrowMembers (with MultiTopic): these members subscribe to the first topic only, the others to all topics.
+	NarrowMembers []int `json:"narrow_members,omitempty"`
 	// MaxBytes of the readers (0 = 1 MiB): small values make the broker end fetch responses inside a batch.
 	MaxBytes int `json:"max_bytes,omitempty"`
 }
@@ -93,6 +95,7 @@ type Result struct {
 	MemberIDs   map[int][]string // coordinator member ids each reader used (from its JoinGroup responses)
 	ConnsOf     map[int][]int
 	Quiesced    bool
+	DueTopics   []int // topic indexes at least one surviving member subscribes to (what quiescence is about)
 	Undelivered []string
 	StepTime    map[string]time.Duration
 }
@@ -112,6 +115,15 @@ const GroupID = "grp"
 func topicName(i int) string { return fmt.Sprintf("t%d", i) }
 
 var apiKeys = map[string]int16{"findcoordinator": 10, "join": 11, "sync": 14, "heartbeat": 12, "commit": 8, "offsetfetch": 9, "leave": 13, "fetch": 1}
+
+func (c Case) narrow(i int) bool {
+	for _, n := range c.NarrowMembers {
+		if n == i {
+			return true
+		}
+	}
+	return false
+}
 
 // Run executes the history.
 func Run(c Case) *Result {
@@ -159,6 +171,8 @@ func Run(c Case) *Result {
 					return &fakecluster.Action{DropBeforeApply: true, Tag: "fault-drop"}
 				case "lost-ack":
 					return &fakecluster.Action{DropResponse: true, Tag: "fault-lost-ack"}
+				case "code-not-first":
+					return &fakecluster.Action{ErrorCode: f.Code, ErrorSkipFirst: true, Tag: fmt.Sprintf("fault-code-%d-not-first", f.Code)}
 				case "slow":
 					return &fakecluster.Action{Delay: time.Duration(f.Code) * time.Millisecond, Tag: "fault-slow"}
 				default:
@@ -218,6 +232,9 @@ func Run(c Case) *Result {
 		}
 		if c.MultiTopic && c.Topics > 1 {
 			cfg.GroupTopics = res.Topics
+			if c.narrow(i) {
+				cfg.GroupTopics = res.Topics[:1]
+			}
 		} else {
 			cfg.Topic = res.Topics[0]
 		}
@@ -434,6 +451,17 @@ func Run(c Case) *Result {
 				survivors = append(survivors, m)
 			}
 		}
+		res.DueTopics = []int{0}
+		if c.MultiTopic {
+			for ti := 1; ti < c.Topics; ti++ {
+				for _, m := range survivors {
+					if !c.narrow(m.idx) {
+						res.DueTopics = append(res.DueTopics, ti)
+						break
+					}
+				}
+			}
+		}
 		if len(survivors) > 0 {
 			res.Quiesced = true
 			deadline := time.Now().Add(12 * time.Second)
@@ -508,11 +536,7 @@ func allDelivered(res *Result, cl *fakecluster.Cluster, c Case) bool {
 			delivered[fmt.Sprintf("%s/%d/%d", e.Topic, e.Partition, e.Offset)] = true
 		}
 	}
-	topics := 1
-	if c.MultiTopic {
-		topics = c.Topics
-	}
-	for ti := 0; ti < topics; ti++ {
+	for _, ti := range res.DueTopics {
 		t := topicName(ti)
 		for p := 0; p < c.Partitions[ti]; p++ {
 			for _, r := range cl.Records(t, int32(p)) {
